@@ -205,10 +205,34 @@ _PM_FN = None
 _PM_ITEMS = None
 
 
+_PM_TIMEOUT = None
+
+
+class ItemTimeout(BaseException):
+    pass
+
+
+def _alarm(signum, frame):
+    raise ItemTimeout()
+
+
 def _pm_call(i):
+    import signal
     x = _PM_ITEMS[i]
     try:
-        return _PM_FN(x)
+        if _PM_TIMEOUT:
+            signal.signal(signal.SIGALRM, _alarm)
+            signal.alarm(int(_PM_TIMEOUT))
+        try:
+            return _PM_FN(x)
+        finally:
+            if _PM_TIMEOUT:
+                signal.alarm(0)
+    except ItemTimeout:
+        st = Stats()
+        st.ob("inconclusive", note="item exceeded %ss wall budget: %s" % (_PM_TIMEOUT, str(x)[:120]))
+        st["programs"] = 0
+        return st
     except BaseException as e:  # noqa - includes solver/crosshair control exceptions
         st = Stats()
         st.harness_error("%s on %r: %s" % (type(e).__name__, str(x)[:300],
@@ -216,13 +240,14 @@ def _pm_call(i):
         return st
 
 
-def pmap(fn, items, procs=None, chunksize=1):
+def pmap(fn, items, procs=None, chunksize=1, item_timeout=60):
     """Parallel map over forked processes; fn returns a Stats (or anything picklable).
-    An unexpected exception in a worker becomes a harness error (exit 3), never a pass."""
+    An unexpected exception in a worker becomes a harness error (exit 3), never a pass.
+    An item exceeding item_timeout seconds of wall time is recorded as inconclusive."""
     import multiprocessing as mp
-    global _PM_FN, _PM_ITEMS
+    global _PM_FN, _PM_ITEMS, _PM_TIMEOUT
     items = list(items)
-    _PM_FN, _PM_ITEMS = fn, items
+    _PM_FN, _PM_ITEMS, _PM_TIMEOUT = fn, items, item_timeout
     procs = procs or int(os.environ.get("VERIF_PROCS", "16"))
     if procs <= 1 or len(items) <= 1:
         return [_pm_call(i) for i in range(len(items))]
